@@ -27,7 +27,7 @@ From Coq Require Import List Ascii ZArith Bool Lia.
 From CGV Require Import Base.PyBase Base.PyVal Base.NxGraph Resolve.GraphOps
      Stereo.EzImpl Stereo.EzDefs Stereo.EzWitness Stereo.EzProofs.
 From CGV Require Import Resolve.Pipeline Resolve.PipelineFull Resolve.CopyProofs Compose.CutModel Compose.CutTables Compose.CutSkeleton
-     Hydro.HydroDefs Dialect.ReturnedAnnot Stereo.EzReturned.
+     Hydro.HydroDefs Dialect.ReturnedAnnot Dialect.DialectImpl Stereo.EzReturned Stereo.EzStrings Stereo.EzStringProofs.
 From CGV Require Hydro.Hydrogens Resolve.SortGraphProofs Dialect.ReturnedCar.
 Import ListNotations.
 Open Scope Z_scope.
@@ -215,6 +215,38 @@ Theorem C15_chiral_reaches_returned_graph : forall C, wf_cut C -> forall fd, tem
       node_get (fo_mol fo) (map_get m (phi C x)) (S "chiral") = aget (S "chiral") (na n).
 Proof. exact chiral_reaches_returned_graph. Qed.
 
+(** ---- ON CGsmiles STRINGS.  [resolve_string] (Stereo/EzStrings.v) = Reader model of the base graph + Frag models of
+    strip_bonding_descriptors / pysmiles' parser / the fragment template + PipelineFull; compared with the implementation on
+    every run (EzCheck.frag_ok for every fragment of every case, EzCheck.string_ok for these witnesses).  Bounded: three
+    concrete pairs of strings, vm_compute.  In each pair the two strings differ ONLY in the order in which the base graph
+    lists the two fragments. *)
+Theorem C15_resolve_string_is_step : forall fo s out, resolve_string fo s = Ok out ->
+  exists fd prev car, resolve_step_full true true fd prev car = Ok out.
+Proof. exact resolve_string_is_step. Qed.
+Theorem C15_string_refs_valid : forall fo s out, resolve_string fo s = Ok out -> wf_graph (fo_m5 out) ->
+  forall k v, In v (ez_list (fo_mol out) k) -> In v (ez_list (fo_m5 out) k) \/ tuple_ok (fo_mol out) k v = true.
+Proof. exact string_refs_valid. Qed.
+Theorem C15_order_refuted_strings :
+  exists o1 o2, resolve_string fo0 (S "{[#A][#B]}.{#A=F/C(Cl)=[$],#B=[$]=C(Br)/I}") = Ok o1 /\
+                resolve_string fo0 (S "{[#B][#A]}.{#A=F/C(Cl)=[$],#B=[$]=C(Br)/I}") = Ok o2 /\
+    keep (fo_m5 o1) = w_AB /\ keep (fo_m5 o2) = w_BA /\
+    wf_graphb (fo_m5 o1) = true /\ wf_graphb (fo_m5 o2) = true /\
+    In (ez_tuple 0 1 3 5 v_trans) (ez_list (fo_mol o1) 0) /\
+    In (ez_tuple (w_iso 0) (w_iso 1) (w_iso 3) (w_iso 5) v_cis) (ez_list (fo_mol o2) (w_iso 0)).
+Proof. exact order_refuted_strings. Qed.
+Theorem C15_cutoff_order_refuted_strings :
+  exists o1 o2, resolve_string fo0 (S "{[#A][#B]}.{#A=F/[$],#B=[$]/C(Cl)=C(/Br)I}") = Ok o1 /\
+                resolve_string fo0 (S "{[#B][#A]}.{#A=F/[$],#B=[$]/C(Cl)=C(/Br)I}") = Ok o2 /\
+    keep (fo_m5 o1) = w2_AB /\ keep (fo_m5 o2) = w2_BA /\
+    In (ez_tuple 0 1 3 4 v_trans) (ez_list (fo_mol o1) 0) /\
+    In (ez_tuple (w2_iso 0) (w2_iso 1) (w2_iso 3) (w2_iso 4) v_cis) (ez_list (fo_mol o2) (w2_iso 0)).
+Proof. exact cutoff_order_refuted_strings. Qed.
+Theorem C15_cutoff_conflict_refuted_strings :
+  (exists o1, resolve_string fo0 (S "{[#A][#B]}.{#A=F/[$],#B=[$]/C(/Cl)=C(/Br)I}") = Ok o1 /\ keep (fo_m5 o1) = w3_AB /\
+              In (ez_tuple 0 1 3 4 v_trans) (ez_list (fo_mol o1) 0)) /\
+  resolve_string fo0 (S "{[#B][#A]}.{#A=F/[$],#B=[$]/C(/Cl)=C(/Br)I}") = Err EValue.
+Proof. exact cutoff_conflict_refuted_strings. Qed.
+
 (** non-vacuity: a well-formed molecule with marks on which the step succeeds and stores two tuples;
     two pairs of two variants that satisfy the hypotheses of the partial theorem *)
 Example C15_nonvacuous :
@@ -274,3 +306,8 @@ Print Assumptions C15_returned_symmetric.
 Print Assumptions C15_returned_class_of_pair.
 Print Assumptions C15_returned_chiral.
 Print Assumptions C15_chiral_reaches_returned_graph.
+Print Assumptions C15_resolve_string_is_step.
+Print Assumptions C15_string_refs_valid.
+Print Assumptions C15_order_refuted_strings.
+Print Assumptions C15_cutoff_order_refuted_strings.
+Print Assumptions C15_cutoff_conflict_refuted_strings.
